@@ -594,16 +594,20 @@ def slot_helper(prog, S, call, numbers, idxvar, nlen, dflt):
     if g is None or not g.static:
         return None
     args = [a.strip_all_casts().get("path") for a in C.call_args(call)]
-    if numbers not in args or idxvar not in args or nlen not in args:
+    byaddr = "&" + idxvar in args and idxvar not in args          # the index handed over by address: the helper works on *p
+    if numbers not in args or (idxvar not in args and not byaddr) or nlen not in args:
         return None
     names = [p_["name"] for p_ in g.params]
-    m = {numbers: names[args.index(numbers)], idxvar: names[args.index(idxvar)], nlen: names[args.index(nlen)]}
+    m = {numbers: names[args.index(numbers)], nlen: names[args.index(nlen)],
+         idxvar: ("*" + names[args.index("&" + idxvar)]) if byaddr else names[args.index(idxvar)]}
     d2 = names[args.index(dflt)] if dflt in args else None
     in_guard, safe, is_slot = capacity_guard(g, S, m[numbers], m[idxvar], m[nlen])
     stores_ok = True
     stored_default = False
     for n, t in C.stores(g):
         p = t.get("path") or ""
+        if p.replace("(", "").replace(")", "") == m[idxvar]:
+            continue              # the index itself, advanced through its address
         if p.startswith(m[numbers] + "[") or (t.k == "UnaryOperator" and t.get("op") == "*"):
             if not in_guard(n):
                 stores_ok = False
@@ -618,8 +622,8 @@ def slot_helper(prog, S, call, numbers, idxvar, nlen, dflt):
             gd = any(a.get("path") == m[numbers] and pol is True for a, pol in facts if not isinstance(pol, tuple)) and \
                 any(a.k == "BinaryOperator" and a.get("op") == "<" and pol is True and a.child(0).strip_all_casts().get("path") == m[idxvar]
                     and a.child(1).strip_all_casts().get("path") == m[nlen] for a, pol in facts if not isinstance(pol, tuple))
-            if not (is_slot(r.child(0)) and gd):
-                rets_ok = False
+            if not (is_slot(r.child(0)) and gd) and r.child(0).strip_all_casts().get("path") not in safe:
+                rets_ok = False       # (a local that is NULL or the slot taken under the guard is as good as the slot itself)
     return (stores_ok and stored_default, stores_ok and rets_ok and g.ret.get("tk") == "ptr")
 
 
@@ -682,6 +686,22 @@ def rule_m5_m6(ck, prog, S):
     for n, t in C.stores(f):
         if n.k == "UnaryOperator" and n.get("op") == "++" and t.get("path") and "idx" in t.get("path"):
             idxvar = t["path"]
+    idx_calls = []          # calls that advance the index through its address (helper does `(*p)++` on every path)
+    if idxvar is None:
+        for c_ in f.calls():
+            g_ = prog.fn(c_.get("callee") or "")
+            if g_ is None or not g_.static:
+                continue
+            for prm, a_ in zip(g_.params, C.call_args(c_)):
+                ap = a_.strip_all_casts().get("path") or ""
+                if not ap.startswith("&") or "idx" not in ap:
+                    continue
+                incs_ = [n_ for n_, t_ in C.stores(g_) if n_.k == "UnaryOperator" and n_.get("op") == "++" and
+                         (t_.get("path") or "").replace("(", "").replace(")", "") == "*" + prm["name"]]
+                gp = S.pg(g_)
+                if incs_ and gp.exit not in gp.reachable([gp.entry], blocked_edge=lambda e: e.kind == "elem" and e.node in incs_):
+                    idxvar = ap[1:]
+                    idx_calls.append(c_)
     for i, c in enumerate(seps):
         st = K.site(f, "suffix-examined-after-boundary", i)
         # from the boundary search, can the pattern be advanced (keyword consumed or skipped) without the '#' examination?
@@ -722,7 +742,7 @@ def rule_m5_m6(ck, prog, S):
         ck.anchor_lost("C03-M5", "'#' edges / suffix index of matchCommand")
     else:
         probs = []
-        incs = [n for n, t in C.stores(f) if t.get("path") == idxvar and n.k == "UnaryOperator" and n.get("op") == "++"]
+        incs = [n for n, t in C.stores(f) if t.get("path") == idxvar and n.k == "UnaryOperator" and n.get("op") == "++"] + idx_calls
         in_guard, safe_ptrs, is_slot = capacity_guard(f, S, numbers, idxvar, nlen)
         for k, e in enumerate(true_edges):
             # must pass an increment of the index before the next advance of the pattern
